@@ -7,6 +7,9 @@ DPMODEL = os.path.join(VERIF, "lean/.lake/build/bin/dpmodel")
 U_COMPONENTS = ["op", "lbl", "susp", "permits", "spermits", "closed", "sclosed", "size", "avail", "queue",
                 "hands", "returned", "dropped", "woken", "fault", "ev"]
 
+# SyncWrapper traces: the harness knows the number of value events so far and, at probes, the poison flag
+S_COMPONENTS = ["events", "poisoned"]
+
 ALL_COMPONENTS = ["op", "lbl", "susp", "permits", "closed", "users", "size", "max",
                   "idle", "out", "live", "woken", "fault", "ev"]
 
@@ -110,6 +113,8 @@ def compare(trace, model_lines, components):
             return (k, "enabled", "executed", m)
         do, dm = parse_obs(o), parse_obs(m)
         for c in components:
+            if do.get(c) == "?":
+                continue
             if do.get(c) != dm.get(c):
                 return (k, c, do.get(c), dm.get(c))
     return None
